@@ -779,7 +779,7 @@ def optional_args(x, mname, params, variant):
             kw["axes"] = list(range(nd))[::-1]
         except Exception:
             pass
-    if "constructs" in names and mname == "transpose":
+    if "constructs" in names and mname in ("transpose", "insert_dimension"):
         kw["constructs"] = True
     if "bounds" in names and mname in ("apply_masking",):
         kw["bounds"] = True
@@ -1199,6 +1199,19 @@ def run_case(pool, label, kind, mname, variant, direction, F0):
         r = None
         row["outcome"] = errname(e)
         row["msg"] = str(e)[:160]
+    # whatever state a public operation leaves an object in (and whatever it
+    # returns), a copy of it can still be made
+    # (judged for the operations that offer an in-place switch: their not-in-place
+    # form starts with a copy, so an uncopyable state breaks every further such call;
+    # setters given ill-shaped arguments validate nothing, by design, and are not judged)
+    for who, o in (("receiver", x), ("result", r)) if (kind == "method" and has_inplace(type(x), mname)
+                                                     and mname != "set_data") else ():
+        if is_container_obj(o) and (who == "receiver" or o is not x):
+            try:
+                o.copy()
+            except Exception as e:
+                row["copy_raises"] = who + ": " + errname(e) + ": " + str(e)[:140]
+                break
     try:
         row["scribbles"] = scribble(r)
     except Exception as e:
@@ -1255,11 +1268,12 @@ def scenario(x, mname, variant):
             if variant == 4:      # the same values in another axis order
                 return [], {"data": d.transpose(), "axes": list(axes)[::-1]}
             return [], {"data": d.copy(), "axes": list(axes)[::-1]}      # 5: shape does not fit the axes
+        # other values / another dtype, same shape (the construct stays consistent with its bounds)
+        shape = d.shape if d is not None else (4,)
         if variant == 3:
-            n = d.size + 1 if d is not None else 4
-            return [], {"data": cfdm.Data(np.arange(float(n)))}
+            return [], {"data": cfdm.Data(np.arange(int(np.prod(shape)), dtype="f4").reshape(shape) + 7)}
         if variant == 4:
-            return [], {"data": cfdm.Data(np.array(["a", "bc"])), "copy": False}
+            return [], {"data": cfdm.Data(np.full(shape, "ab")), "copy": False}
         raise Skip("no raising scenario")
     if mname == "squeeze":
         if variant == 5:
@@ -1378,6 +1392,13 @@ def run_protocol_case(pool, row, x0, kind, mname, variant, F0):
     except Exception as e:
         row["skip"] = "argument synthesis failed: " + errname(e)
         return row
+    if variant >= 3:
+        try:
+            x.copy()
+        except Exception as e:
+            # reported where it arises (run_case: copy_raises); nothing can be said here
+            row["skip"] = "prepared receiver cannot be copied: " + errname(e)
+            return row
     Fx0 = fp(x)
     kw.pop("inplace", None)
     row["kw"] = sorted(kw)
@@ -1415,6 +1436,11 @@ def run_protocol_case(pool, row, x0, kind, mname, variant, F0):
         else:
             row["placeholder_result"] = has_placeholder(r)
             row["result_is_receiver"] = r is x
+            if is_container_obj(r) and mname != "set_data":
+                try:
+                    r.copy()
+                except Exception as e:
+                    row["copy_raises"] = "result: " + errname(e) + ": " + str(e)[:140]
             try:
                 row["effect"] = pub_fp(r) != Fx0["pub"]      # did the operation do anything?
             except Exception:
